@@ -11,6 +11,7 @@ import (
 
 	"verif/harness/comp/kcpcore"
 	"verif/harness/comp/ring"
+	"verif/harness/comp/sesse2e"
 	"verif/harness/internal/hx"
 )
 
@@ -27,6 +28,7 @@ var components = map[string]component{
 	"kcp-shift": {kcpcore.RunShift, true},
 	"kcp-mtu":   {kcpcore.RunMtu, true},
 	"kcp-forge": {kcpcore.RunForge, true},
+	"sess":      {sesse2e.Run, true},
 }
 
 func main() {
